@@ -59,3 +59,57 @@ package ext
 //@   loop 1:
 //@     invariant needSkipLen > 0 && rs.reader != nil && rs.reader.pos + needSkipLen == old(rs.reader.pos) + old(rs.contentLength - ite(rs.offset > len(rs.prefetchedBytes.s), rs.offset, len(rs.prefetchedBytes.s)))
 //@     invariant rs.reader.avail >= 0
+//@ pure func pow2(x int) int = ite(x == 0, 1, ite(x == 1, 2, ite(x == 2, 4, ite(x == 3, 8, ite(x == 4, 16, ite(x == 5, 32, ite(x == 6, 64, ite(x == 7, 128, ite(x == 8, 256, ite(x == 9, 512, ite(x == 10, 1024, ite(x == 11, 2048, ite(x == 12, 4096, ite(x == 13, 8192, ite(x == 14, 16384, ite(x == 15, 32768, ite(x == 16, 65536, ite(x == 17, 131072, ite(x == 18, 262144, ite(x == 19, 524288, ite(x == 20, 1048576, ite(x == 21, 2097152, ite(x == 22, 4194304, ite(x == 23, 8388608, ite(x == 24, 16777216, ite(x == 25, 33554432, ite(x == 26, 67108864, ite(x == 27, 134217728, ite(x == 28, 268435456, ite(x == 29, 536870912, ite(x == 30, 1073741824, ite(x == 31, 2147483648, ite(x == 32, 4294967296, ite(x == 33, 8589934592, ite(x == 34, 17179869184, ite(x == 35, 34359738368, ite(x == 36, 68719476736, ite(x == 37, 137438953472, ite(x == 38, 274877906944, ite(x == 39, 549755813888, ite(x == 40, 1099511627776, ite(x == 41, 2199023255552, ite(x == 42, 4398046511104, ite(x == 43, 8796093022208, ite(x == 44, 17592186044416, ite(x == 45, 35184372088832, ite(x == 46, 70368744177664, ite(x == 47, 140737488355328, ite(x == 48, 281474976710656, ite(x == 49, 562949953421312, ite(x == 50, 1125899906842624, ite(x == 51, 2251799813685248, ite(x == 52, 4503599627370496, ite(x == 53, 9007199254740992, ite(x == 54, 18014398509481984, ite(x == 55, 36028797018963968, ite(x == 56, 72057594037927936, ite(x == 57, 144115188075855872, ite(x == 58, 288230376151711744, ite(x == 59, 576460752303423488, ite(x == 60, 1152921504606846976, ite(x == 61, 2305843009213693952, ite(x == 62, 4611686018427387904, ite(x == 63, 9223372036854775808, 0))))))))))))))))))))))))))))))))))))))))))))))))))))))))))))))))
+
+// ---- body readers (C01 d, C03, C11) ----
+// round2: smallest power of two >= n (for n up to 2^62).
+//@ func round2(n) r
+//@   props C03, C11
+//@   ensures n <= 0 ==> r == 0
+//@   ensures 0 < n && n <= 4611686018427387904 ==> r >= n && r < 2 * n
+//@   loop 0:
+//@     invariant 0 <= n && 0 <= x && x <= 63 && old(n) > 0
+//@     invariant n * pow2(x) <= old(n) - 1 && old(n) - 1 < (n + 1) * pow2(x)
+//@     invariant x == 0 || pow2(x - 1) <= old(n) - 1
+
+// appendBodyFixedSize: on success exactly n bytes are taken off the wire and appended to dst.
+//@ func appendBodyFixedSize(r, dst, n) res, err
+//@   props C01, C03, C11
+//@   requires r != nil && 0 <= n && len(dst) + n <= 140737488355328
+//@   modifies r.pos, r.avail, r.failed, mem
+//@   allocates
+//@   top-ensures err == nil ==> len(res) == len(dst) + n && r.pos == old(r.pos) + n && forall(k, 0, n, res[len(dst) + k] == wire(r, old(r.pos) + k))
+//@   ensures err == nil ==> forall(k, 0, len(dst), res[k] == old(dst[k]))
+//@   ensures err != nil ==> len(res) == len(dst) && r.pos == old(r.pos)
+
+// readBodyChunked: the decoded body never exceeds a positive limit.
+//@ func readBodyChunked(r, maxBodySize, dst) res, err
+//@   props C01, C03, C11
+//@   panics
+//@   requires r != nil && maxBodySize <= 70368744177664
+//@   replay-import errors
+//@   replay-decl type vcgoWire3 struct{ b []byte; pos int }; func (w *vcgoWire3) Peek(n int) ([]byte, error) { if n < 0 || w.pos+n > len(w.b) { return w.b[w.pos:], errors.New("EOF") }; return w.b[w.pos : w.pos+n], nil }; func (w *vcgoWire3) Skip(n int) error { if w.pos+n > len(w.b) { return errors.New("EOF") }; w.pos += n; return nil }; func (w *vcgoWire3) Release() error { return nil }; func (w *vcgoWire3) Len() int { return len(w.b) - w.pos }; func (w *vcgoWire3) ReadByte() (byte, error) { if w.pos >= len(w.b) { return 0, errors.New("EOF") }; w.pos++; return w.b[w.pos-1], nil }; func (w *vcgoWire3) ReadBinary(n int) ([]byte, error) { p, err := w.Peek(n); if err != nil { return nil, err }; w.pos += n; return append([]byte(nil), p...), nil }
+//@   replay-go w := &vcgoWire3{b: []byte("7ffffffffffffff\r\nabc")}; _, _ = ReadBody(w, -1, 0, nil); fmt.Println("VCGO-NOTE no panic")
+//@   modifies r.pos, r.avail, r.failed, mem
+//@   allocates
+//@   top-ensures err == nil && maxBodySize > 0 ==> len(res) <= maxBodySize
+//@   loop 0:
+//@     invariant 0 <= len(dst) && (maxBodySize > 0 ==> len(dst) <= maxBodySize)
+
+//@ func readBodyIdentity(r, maxBodySize, dst) res, err
+//@   props C03, C11
+//@   requires r != nil && maxBodySize <= 70368744177664 && r.avail >= 0
+//@   modifies r.pos, r.avail, r.failed, mem
+//@   allocates
+//@   top-ensures err == nil && maxBodySize > 0 ==> len(res) <= maxBodySize
+//@   loop 0:
+//@     invariant 0 <= offset && offset <= len(dst) && len(dst) >= 1 && len(dst) <= 281474976710656 && (maxBodySize > 0 ==> offset <= maxBodySize && len(dst) <= 2 * maxBodySize + 1024) && r.avail >= 0 && offset < len(dst)
+
+//@ func ReadBody(r, contentLength, maxBodySize, dst) res, err
+//@   props C01, C03, C11
+//@   panics
+//@   requires r != nil && maxBodySize <= 70368744177664 && r.avail >= 0
+//@   modifies r.pos, r.avail, r.failed, mem
+//@   allocates
+//@   top-ensures err == nil && maxBodySize > 0 ==> len(res) <= maxBodySize
+//@   top-ensures err == nil && contentLength >= 0 ==> len(res) == contentLength && r.pos == old(r.pos) + contentLength && forall(k, 0, contentLength, res[k] == wire(r, old(r.pos) + k))
